@@ -138,7 +138,7 @@ PLAN = {
                   "k<=3 without queues, k<=2 with notify/group_async from 2 threads, k<=1 for 3-thread and global-queue programs", "k<=4 / k<=2 / k<=2 / k<=1"),
     "C08": _qplan("all wait(forever/1 ms/now)/signal programs of 2 threads x <=2 ops and 3 threads x 1 op on a semaphore of value 0 or 1 (232 programs; thorough adds 982 three-thread programs), final drain",
                   "k<=3 deviations (preemptions + timeout-first choices) for all 232 programs", "k<=4 for the 232 programs, k<=3 for the 982 three-thread programs"),
-    "C15": _qplan("DATA_ADD/OR/REPLACE sources on serial/concurrent/global targets, 1-3 merging threads x <=3 merges, suspended-while-merging, merge-from-handler, merged-before-activation and activation-racing-the-merges variants, final sentinel merge",
+    "C15": _qplan("DATA_ADD/OR/REPLACE sources on serial/concurrent/global targets, 1-3 merging threads x <=3 merges, suspended-while-merging, merge-from-handler, merged-before-activation, activation-racing-the-merges and default-target (NULL) variants; a value merged from the handler must be delivered without help from a later merge; final sentinel merge",
                   "serial target: k<=2 for 4 scripts, k<=1 for the rest; pool targets: k<=1 for the 2-thread and single-thread scripts", "k<=2 everywhere except 3-thread scripts on pool targets (k<=1)"),
     "C01": _qplan("2-3 client threads, 1-3 submissions each over serial/concurrent/global/chained queues, ping-pong, gated and cold-pool variants",
                   "k<=2 for programs on serial hierarchies, k<=1 for programs that run on the pool concurrently",
@@ -351,6 +351,10 @@ def _tasks_for(pid, tier):
         out = []
         for v in variants("source"):
             ty, tk, sc = v % 3, (v // 3) % 3, v // 9
+            if sc >= 9:       # scripts on the default (NULL) target: the target coordinate is ignored by the harness, run them once
+                if tk == 0:
+                    out += ds("source", (2 if sc == 9 else 1) + (0 if q else 1), [v], jobs=6)
+                continue
             if tk == 0:
                 k = 2 if (not q or sc in (0, 4, 5, 6, 7)) else 1
                 out += ds("source", k, [v], jobs=6)
